@@ -127,6 +127,9 @@ pub enum Fmt {
     Json,
     /// bincode through a writer / reader
     Bincode,
+    /// serde_json::Value as the (de)serializer (sequence lengths are known in advance); the bytes are
+    /// the JSON text of the value
+    JsonValue,
 }
 
 #[derive(Clone, Copy, Debug)]
@@ -217,6 +220,10 @@ pub fn enc<T: Serialize + ?Sized>(fmt: Fmt, w: &mut dyn Write, t: &T) -> Result<
     match fmt {
         Fmt::Json => serde_json::to_writer(w, t).map_err(|e| format!("json: {}", e)),
         Fmt::Bincode => bincode_options().serialize_into(w, t).map_err(|e| format!("bincode: {}", e)),
+        Fmt::JsonValue => {
+            let v = serde_json::to_value(t).map_err(|e| format!("json value: {}", e))?;
+            serde_json::to_writer(w, &v).map_err(|e| format!("json: {}", e))
+        }
     }
 }
 
@@ -224,6 +231,10 @@ pub fn dec<T: DeserializeOwned>(fmt: Fmt, r: &mut dyn Read) -> Result<T, String>
     match fmt {
         Fmt::Json => serde_json::from_reader(r).map_err(|e| format!("json: {}", e)),
         Fmt::Bincode => bincode_options().deserialize_from(r).map_err(|e| format!("bincode: {}", e)),
+        Fmt::JsonValue => {
+            let v: serde_json::Value = serde_json::from_reader(r).map_err(|e| format!("json: {}", e))?;
+            serde_json::from_value(v).map_err(|e| format!("json value: {}", e))
+        }
     }
 }
 
